@@ -56,16 +56,28 @@ pub struct FloodScenario {
 pub const SERVER_KINDS: &[&str] = &[
     "open-rst", "open-wait-rst", "open-only", "open-es", "continuation", "big-headers", "tiny-data", "empty-data", "ping", "settings", "window-update", "priority", "data-on-closed", "rst-closed", "unknown", "frames-on-reset",
 ];
-pub const CLIENT_KINDS: &[&str] = &["push-promise", "push-rst", "push-complete", "interim", "tiny-data", "empty-data", "ping", "settings", "window-update", "priority", "unknown", "rst-closed"];
+pub const CLIENT_KINDS: &[&str] = &["push-promise", "push-rst", "push-complete", "push-open", "interim", "tiny-data", "empty-data", "ping", "settings", "window-update", "priority", "unknown", "rst-closed"];
 
 fn tiny(p: &DirProfile) -> bool {
     matches!(p.write_max, Chunk::Fixed(n) if n < 8) || matches!(p.deliver, Chunk::Fixed(n) if n < 8) || matches!(p.read_max, Chunk::Fixed(n) if n < 8) || matches!(p.deliver, Chunk::Uniform(_, hi) if hi < 32) || matches!(p.write_max, Chunk::Uniform(_, hi) if hi < 64)
 }
 
 pub fn gen_flood(seed: u64) -> FloodScenario {
+    gen_flood_kinds(seed, &[])
+}
+
+/// `only`: restrict the flood kinds ("server:open-only", "client:push-open", ...); empty = all.
+pub fn gen_flood_kinds(seed: u64, only: &[String]) -> FloodScenario {
     let mut rng = Rng::new(seed ^ 0xf100d);
-    let e_server = rng.chance(3, 5);
-    let kind = if e_server { *rng.pick(SERVER_KINDS) } else { *rng.pick(CLIENT_KINDS) };
+    let mut e_server = rng.chance(3, 5);
+    let mut kind = if e_server { *rng.pick(SERVER_KINDS) } else { *rng.pick(CLIENT_KINDS) };
+    if !only.is_empty() {
+        let all: Vec<(bool, &'static str)> = SERVER_KINDS.iter().map(|k| (true, *k)).chain(CLIENT_KINDS.iter().map(|k| (false, *k))).filter(|(srv, k)| only.iter().any(|o| o == &format!("{}:{}", if *srv { "server" } else { "client" }, k))).collect();
+        assert!(!all.is_empty(), "no flood kind matches {:?}", only);
+        let c = *rng.pick(&all);
+        e_server = c.0;
+        kind = c.1;
+    }
     let variant = rng.below(4) as u32;
     let mut cfg = EpCfg::default();
     cfg.max_concurrent_streams = Some(rng.range(1, 8) as u32);
@@ -96,7 +108,7 @@ pub fn gen_flood(seed: u64) -> FloodScenario {
     if tiny(&prof[0]) || tiny(&prof[1]) {
         n = n.min(60);
     }
-    let blockable = matches!(kind, "ping" | "settings" | "open-only" | "open-rst" | "open-wait-rst" | "data-on-closed" | "frames-on-reset" | "rst-closed" | "push-rst" | "push-complete");
+    let blockable = matches!(kind, "ping" | "settings" | "open-only" | "open-rst" | "open-wait-rst" | "push-open" | "data-on-closed" | "frames-on-reset" | "rst-closed" | "push-rst" | "push-complete");
     FloodScenario {
         seed,
         e_server,
@@ -332,7 +344,18 @@ fn flood_item(p: &mut RawPeer, sc: &FloodScenario, st: &mut FloodState, i: usize
             }
             true
         }
-        "push-promise" | "push-rst" | "push-complete" => {
+        "push-open" if sc.variant % 2 == 1 && i >= len / 2 => {
+            // second phase of "promise first, open later": all reservations were made while no pushed
+            // stream was open, now every promised stream is opened and kept open
+            let promised = 2 + 2 * (i - len / 2) as u32;
+            if promised >= st.next_promised {
+                return false;
+            }
+            let b = p.encode_block(&[f(":status", "200")]);
+            headers(promised, &b, false, None, None, 0, 0, out);
+            true
+        }
+        "push-promise" | "push-rst" | "push-complete" | "push-open" => {
             let promised = st.next_promised;
             if promised > 0x7fff_fff0 {
                 return false;
@@ -346,6 +369,11 @@ fn flood_item(p: &mut RawPeer, sc: &FloodScenario, st: &mut FloodState, i: usize
                 "push-complete" => {
                     let b = p.encode_block(&[f(":status", "200")]);
                     headers(promised, &b, true, None, None, 0, 0, out);
+                }
+                "push-open" if sc.variant % 2 == 0 => {
+                    // the pushed response stays open until the epilogue: concurrently active pushed streams
+                    let b = p.encode_block(&[f(":status", "200")]);
+                    headers(promised, &b, false, None, None, 0, 0, out);
                 }
                 _ => {}
             }
@@ -491,6 +519,18 @@ async fn flood_peer(mut p: RawPeer, sc: FloodScenario, len: usize, rep: Rc<RefCe
         p.settle_world(300).await;
     }
     // ---- epilogue: let the application finish what it holds, then end the connection
+    if sc.kind == "push-open" && !p.write_failed {
+        let mut b = Vec::new();
+        let mut sid = 2;
+        while sid < st.next_promised {
+            if !p.sh.streams.get(&sid).map(|x| x.rst.is_some()).unwrap_or(false) {
+                data(sid, b"", true, None, &mut b);
+            }
+            sid += 2;
+        }
+        p.send(&b).await;
+        p.settle_world(300).await;
+    }
     p.auto_grant = true;
     p.release_withheld().await;
     sim::open_gate();
@@ -556,7 +596,7 @@ fn run_one(sc: &FloodScenario, len: usize) -> (Outcome, FloodReport, RunPeaks) {
         sim::spawn("raw-peer", TaskKind::App, flood_peer(RawPeer::new(0, Side::Client), sc.clone(), len, rep.clone(), hook.clone()));
     } else {
         let mut spec = plain_spec(2, "GET", vec![], vec![]);
-        spec.client_polls_push = sc.client_polls_push && sc.app != AppMode::Ignore;
+        spec.client_polls_push = (sc.client_polls_push || sc.kind == "push-open") && sc.app != AppMode::Ignore;
         spec.client_polls_info = sc.variant % 2 == 0;
         match sc.app {
             AppMode::Fast | AppMode::AcceptFew(_) => {}
